@@ -40,6 +40,12 @@ def run_case(c):
       m2 = nnx.merge(g, *reversed(ss))
       res['merge_equal'] = IG.canon(m1) == before
       res['merge_permuted_equal'] = IG.canon(m2) == before
+      # states whose own entries are not in sorted order: a State rebuilt from its leaves in reverse order, and one State made by merge_state in reverse argument order
+      def rebuilt(st):
+        return nnx.State.from_flat_path(dict(reversed(list(st.flat_state().items()))) if hasattr(st.flat_state(), 'items') else dict(reversed(list(st.flat_state()))))
+      m3 = nnx.merge(g, *[rebuilt(st) for st in ss])
+      m4 = nnx.merge(g, nnx.merge_state(*reversed(ss))) if len(ss) > 1 else m3
+      res['merge_unsorted_equal'] = IG.canon(m3) == before and IG.canon(m4) == before
       st = nnx.state(root, *fs)
       st = st if isinstance(st, tuple) else (st,)
       res['state_buckets'] = [IG.enc_flat(s) for s in st]
@@ -50,7 +56,12 @@ def run_case(c):
     objs2, root2 = IG.build(c['desc'])
     ids2 = {id(o): i for i, o in enumerate(objs2)}
     st = nnx.state(root2, nnx.Variable)      # Variables only: array attributes are not part of the update sentence
-    st2 = jax.tree_util.tree_map(lambda x: x + 100, st)
+    # every payload + 100, and every Variable gets the NEXT metadata set (so keys are added, changed and removed)
+    from flax.nnx import variablelib as V
+    def bump(vs):
+      md = IG.METAS[(IG.meta_code(vs.get_metadata()) + 1) % len(IG.METAS)] if IG.meta_code(vs.get_metadata()) != 99 else dict(vs.get_metadata())
+      return V.VariableState(vs.type, vs.value + 100, **md)
+    st2 = jax.tree_util.tree_map(bump, st, is_leaf=lambda x: isinstance(x, V.VariableState))
     nnx.update(root2, st2)
     same_ids = all(id(o) in ids2 for o in IG.obj_ids(root2).values())
     return {'canon': IG.canon(root2), 'identity_kept': same_ids, 'state_in': IG.enc_flat(st2)}
